@@ -500,11 +500,14 @@ def check_bytes_cursor(out, facts):
     seq = [e for e in events(t) if e[0] in ('dec', 'MUTCALL', 'SET', 'HOOK', 'ERR', 'read', 'rb')]
     kinds = [(e[0], e[1] if e[0] == 'MUTCALL' else None) for e in seq]
     want = [('dec', None), ('MUTCALL', 'advance'), ('SET', None), ('ERR', None), ('HOOK', None), ('MUTCALL', 'split_to')]
-    if len(kinds) == len(want) and kinds[1] == ('SET', None) and kinds[2] == ('MUTCALL', 'advance'):
-        # `advance(&mut bytes, mem::take(&mut position))`: the reset happens while the argument is evaluated; the amount
-        # advanced is still the old position (checked below)
+    taken = False
+    if len(kinds) == len(want) and kinds[1] == ('SET', None) and kinds[2] == ('MUTCALL', 'advance') and \
+            sym.vstr(seq[2][3][1]) == 'take(self.position)':
+        # `advance(&mut bytes, mem::take(&mut position))`: the reset happens while the argument is evaluated, and the amount
+        # advanced is the value the field held before it (a plain read after the reset would be 0: not accepted)
         seq[1], seq[2] = seq[2], seq[1]
         kinds[1], kinds[2] = kinds[2], kinds[1]
+        taken = True
     ok = kinds == want
     why = 'event sequence %s differs from dec Compact<u32>, advance(position), position = 0, reject, hook, split_to' % kinds
     if ok:
@@ -513,7 +516,7 @@ def check_bytes_cursor(out, facts):
         cnt = sym.vstr(seq[5][3][1])
         ok = ok and cnt == '(decoded#%s:compact::Compact<u32>.0 as usize)' % d[2]
         ok = ok and sym.vstr(seq[4][1]) == cnt
-        ok = ok and sym.vstr(seq[1][3][1]) == 'self.position' and sym.vstr(seq[2][2]) == '0:usize' and is_self_field(seq[2][1], 'position')
+        ok = ok and sym.vstr(seq[1][3][1]) == ('take(self.position)' if taken else 'self.position') and sym.vstr(seq[2][2]) == '0:usize' and is_self_field(seq[2][1], 'position')
         alts = [x for x in sym.walk(t) if x[0] == 'alt']
         ok = ok and len(alts) == 1 and sym.vstr(alts[0][1][1]) == '(%s Gt len(self.bytes))' % cnt
         why = 'count/guard/hook/split arguments disagree: ' + sym.tstr(t)[:300]
